@@ -17,6 +17,7 @@ import (
 	"runtime"
 	"sort"
 	"sync"
+	"sync/atomic"
 	"time"
 
 	"github.com/mattn/anko/env"
@@ -164,6 +165,7 @@ func (s *sched) grant(e event) {
 type world struct {
 	parent, child *env.Env
 	copies        map[[2]int]*env.Env
+	panics        int32
 }
 
 func setup(tab0, ptab Tab) *world {
@@ -229,6 +231,29 @@ func (w *world) call(g, i int, o Op, mu *sync.Mutex) Res {
 	return Res{K: "unknown"}
 }
 
+// safeCall runs one operation; a Go panic inside it becomes the result {k: "panic"} (false is returned).
+func safeCall(w *world, res [][]Res, g, i int, o Op, mu *sync.Mutex) (ok bool) {
+	defer func() {
+		if r := recover(); r != nil {
+			res[g][i] = Res{K: "panic", S: []string{fmt.Sprint(r)}}
+			ok = false
+		}
+	}()
+	res[g][i] = w.call(g, i, o, mu)
+	return true
+}
+
+func fillRes(res [][]Res) [][]Res {
+	for g := range res {
+		for i := range res[g] {
+			if res[g][i].K == "" {
+				res[g][i] = Res{K: "notrun", S: []string{}}
+			}
+		}
+	}
+	return res
+}
+
 func tabOf(e *env.Env) Tab {
 	t := Tab{K: []string{}, V: []int{}}
 	ks := e.GetValueSymbols()
@@ -280,7 +305,12 @@ func runGated(progs [][]Op, tab0, ptab Tab, prefix []int) (out Outcome, taken []
 		go func() {
 			<-s.resume[g]
 			for i, o := range progs[g] {
-				res[g][i] = w.call(g, i, o, nil)
+				if !safeCall(w, res, g, i, o, nil) {
+					// a Go panic inside the environment operation: recorded as this operation's result; the rest of this
+					// goroutine's program is not run (a lock the operation held may have leaked -- then the others deadlock)
+					atomic.AddInt32(&w.panics, 1)
+					break
+				}
 			}
 			s.yield <- event{g, "finish", nil}
 		}()
@@ -331,6 +361,10 @@ func runGated(progs [][]Op, tab0, ptab Tab, prefix []int) (out Outcome, taken []
 	s.active = false
 	if deadlock {
 		return Outcome{Sched: taken}, taken, width, true // the parked goroutines are abandoned
+	}
+	if atomic.LoadInt32(&w.panics) > 0 {
+		// the tables are not read out (their lock may be held for ever); the panic result alone makes the outcome unexplainable
+		return Outcome{C: Tab{K: []string{}, V: []int{}}, P: Tab{K: []string{}, V: []int{}}, Res: fillRes(res), Sched: taken}, taken, width, false
 	}
 	out = w.outcome(res)
 	out.Sched = taken
@@ -448,7 +482,10 @@ func runFree(progs [][]Op, tab0, ptab Tab, rounds int) Line {
 				defer wg.Done()
 				<-start
 				for i, o := range progs[g] {
-					res[g][i] = w.call(g, i, o, &mu)
+					if !safeCall(w, res, g, i, o, &mu) {
+						atomic.AddInt32(&w.panics, 1)
+						break
+					}
 					if r%3 == 0 {
 						runtime.Gosched()
 					}
@@ -466,7 +503,12 @@ func runFree(progs [][]Op, tab0, ptab Tab, rounds int) Line {
 			return line
 		}
 		line.Schedules++
-		out := w.outcome(res)
+		var out Outcome
+		if atomic.LoadInt32(&w.panics) > 0 {
+			out = Outcome{C: Tab{K: []string{}, V: []int{}}, P: Tab{K: []string{}, V: []int{}}, Res: fillRes(res)}
+		} else {
+			out = w.outcome(res)
+		}
 		if k := key(out); !seen[k] {
 			seen[k] = true
 			line.Outcomes = append(line.Outcomes, out)
